@@ -129,6 +129,17 @@ def gen_exec(rng):
     return ["exec"] + toks
 
 
+def pasted_block(rng):
+    """what readline hands over after a bracketed paste: several lines, line breaks included, as ONE line"""
+    parts = []
+    for _ in range(rng.range(2, 4)):
+        ln = rng.choice(["step", "rewind", "exec OP_5", "exec OP_1 OP_2", "tf echo 1", "print", "stack", "", "   ", "exec 'OP_3"])
+        if rng.chance(50):
+            ln += rng.choice(["  # ", "#", " # and more " + "x" * rng.range(0, 300)]) + rng.choice(["", "note", "'quote", "\\"])
+        parts.append(ln)
+    return rng.choice(["\n", "\n", "\r\n", "\n     "]).join(parts) + rng.choice(["", "\n"])
+
+
 TAB_LINES = ["tf ", "tf s", "tf sha256 ", "tf sha256 0xa", "tf add 1 ", "help st x", "help ", "exec OP_", "exec OP_1 OP_AD", "exec  ", "st", "", "  tf  x  y ",
              "unknown cmd here", "tf\tx", "exec 'OP_1 OP", "print extra words here"]
 
@@ -138,6 +149,8 @@ def gen_raw(rng):
     cmd = rng.choice(["tf echo", "exec", "tf sha256", "tf hex", "exec OP_1"])
     if rng.chance(15):
         return [["raw", rng.choice(TAB_LINES)]]
+    if rng.chance(10):
+        return [["raw", pasted_block(rng)]]
     if k == 0:
         return [["raw", cmd + " 'open quote"], ["raw", "second line"], ["raw", "closing' done"]]
     if k == 1:
